@@ -143,6 +143,10 @@ static void build_all() {
 template <class T> static void probe(const Obj& o, const char* tname, vh::Out& out) {
     std::vector<PDU*> chain; for (PDU* p = o.root; p; p = p->inner_pdu()) chain.push_back(p);
     T* f = o.root->find_pdu<T>(); T* fk = o.k->find_pdu<T>(); T* c = tins_cast<T*>(o.k);
+    // the const overloads of the search (and the throwing rfind_pdu) have to give the same answers
+    const PDU* croot = o.root; const PDU* ck = o.k; const T* cf = croot->find_pdu<T>(); const T* cfk = ck->find_pdu<T>();
+    const T* rf = 0; try { rf = &croot->rfind_pdu<T>(); } catch (pdu_not_found&) {} T* rf2 = 0; try { rf2 = &o.root->rfind_pdu<T>(); } catch (pdu_not_found&) {}
+    bool overloads_agree = (const void*)cf == (const void*)f && (const void*)cfk == (const void*)fk && (const void*)rf == (const void*)f && (const void*)rf2 == (const void*)f;
     long find = -1, findk = -1;
     if (f) { find = -2; for (size_t i = 0; i < chain.size(); ++i) if ((void*)chain[i] == (void*)f) find = (long)i; }
     if (fk) { findk = -2; for (size_t i = 0; i < chain.size(); ++i) if ((void*)chain[i] == (void*)fk) findk = (long)i; }
@@ -156,7 +160,7 @@ template <class T> static void probe(const Obj& o, const char* tname, vh::Out& o
       cacher_pair = tn.compare(0, 10, "PDUCacher<") == 0 || (t_is_wrapped_or_base && findk != -2 && find != -2); }
     out.begin("\"obj\":\"" + o.label + "\",\"t\":\"" + tname + "\",\"cacher_pair\":" + (cacher_pair ? "true" : "false"));
     vh::W w; w.O().kv("e", "pair").kv("k", o.label).kv("cls", o.cls).kv("t", tname).kv("find", find).kv("findk", findk).kv("kidx", kidx)
-        .kv("cast", c != 0).kv("castSame", (void*)c == (void*)o.k).kv("self", self);
+        .kv("cast", c != 0).kv("castSame", (void*)c == (void*)o.k).kv("self", self).kv("overloads_agree", overloads_agree);
     w.key("dyn").A(); for (size_t i = 0; i < chain.size(); ++i) w.v(dynamic_cast<T*>(chain[i]) != 0); w.E();
     w.key("chain").A(); for (size_t i = 0; i < chain.size(); ++i) w.v((long)chain[i]->pdu_type()); w.E();
     w.E(); out.event(w); out.end();
